@@ -35,10 +35,11 @@ impl TupleAccess {
 
 impl ReturnType for TupleAccess {
     fn return_type(&self) -> crate::variable::Type {
+        // the operand is a tuple, or - once a constant condition was folded away - of type `!`
         self.tuple
             .return_type()
             .tuple_element_at(self.index)
-            .unwrap()
+            .unwrap_or(crate::variable::Type::Never)
     }
 }
 
